@@ -1,0 +1,78 @@
+//go:build verif
+
+// Contracts for the govc verifier (see /verif/DESIGN.md). This file contains
+// comments only; it is compiled only under the build tag "verif" and adds no
+// code to the package.
+
+package dyncrc16
+
+//@ import "hash"
+
+//@@ ---- specification: reflected CRC-16, polynomial 0xA001, LSB first ----
+
+//@ spec pure Bitstep(c uint16) uint16 := ite(c&1 == 1, (c>>1)^0xA001, c>>1)
+//@ spec pure Step8(c uint16) uint16 := Bitstep(Bitstep(Bitstep(Bitstep(Bitstep(Bitstep(Bitstep(Bitstep(c))))))))
+//@ spec pure opaque UpdSpec(c uint16, b byte) uint16 := Step8(c ^ uint16(b))
+//@ spec rec Crcfold(s uint16, a []byte, lo int, hi int) uint16 := ite(hi <= lo, s, UpdSpec(Crcfold(s, a, lo, hi-1), a[hi-1]))
+
+//@ func updateByte(c crc16, data byte) (r crc16)
+//@   props C14
+//@   reveal UpdSpec
+//@   ensures [spec] uint16(r) == UpdSpec(uint16(c), data)
+//@   assigns nothing
+
+//@ func update(c crc16, data []byte) (r crc16)
+//@   props C14
+//@   locals rangeindex int
+//@   ensures [fold] uint16(r) == Crcfold(uint16(old(c)), data, 0, len(data))
+//@   assigns nothing
+//@   loop 0 invariant [range] -1 <= rangeindex && rangeindex < len(data)
+//@   loop 0 invariant [fold] uint16(c) == Crcfold(uint16(old(c)), data, 0, rangeindex+1)
+//@   loop 0 decreases len(data) - rangeindex
+
+//@ func Checksum(data []byte) (r uint16)
+//@   props C14
+//@   ensures [fold] r == Crcfold(0, data, 0, len(data))
+//@   assigns nothing
+
+//@ func (c *crc16) Write(data []byte) (n int, err error)
+//@   props C14
+//@   ensures [fold] uint16(*c) == Crcfold(uint16(old(*c)), data, 0, len(data))
+//@   ensures [len] n == len(data) && err == nil
+//@   assigns *c
+
+//@ func (c *crc16) Sum16() (r uint16)
+//@   props C14
+//@   ensures [state] r == uint16(*c)
+//@   assigns nothing
+
+//@ func (c *crc16) Reset()
+//@   props C14
+//@   ensures [zero] uint16(*c) == 0
+//@   assigns *c
+
+//@ func (c *crc16) Size() (r int)
+//@   props C14
+//@   ensures r == 2
+//@   assigns nothing
+
+//@ func (c *crc16) BlockSize() (r int)
+//@   props C14
+//@   ensures r == 1
+//@   assigns nothing
+
+//@ lemma residue(s uint16)
+//@   props C14
+//@   reveal UpdSpec
+//@   concl UpdSpec(UpdSpec(s, byte(s)), byte(s>>8)) == 0
+
+//@ lemma fold_split_base(s uint16, a []byte, lo int, m int)
+//@   props C14
+//@   hyp lo <= m
+//@   concl Crcfold(Crcfold(s, a, lo, m), a, m, m) == Crcfold(s, a, lo, m)
+
+//@ lemma fold_split_step(s uint16, a []byte, lo int, m int, hi int)
+//@   props C14
+//@   hyp lo <= m && m <= hi && hi < 1<<62
+//@   hyp Crcfold(Crcfold(s, a, lo, m), a, m, hi) == Crcfold(s, a, lo, hi)
+//@   concl Crcfold(Crcfold(s, a, lo, m), a, m, hi+1) == Crcfold(s, a, lo, hi+1)
